@@ -1,47 +1,59 @@
 #!/bin/bash
 # selftest.sh [ids...] - re-run the checks against every kept property-breaking change
 # (/verif/seeded/<id>/patch.diff, /verif/selftest/break/*.diff: must be reported) and every
-# harmless edit (/verif/selftest/harmless/*.diff: must NOT be reported), in a scratch
-# worktree of /repo under /tmp that is removed afterwards.  Says nothing about /repo itself.
+# harmless edit (/verif/selftest/harmless/*.diff: must NOT be reported), in scratch worktrees of
+# /repo under /tmp that are removed afterwards.  Says nothing about /repo itself.
+# Breaking changes run on SELFTEST_JOBS workers (default 4; a solver timeout under load can only
+# add reports there); harmless edits run one at a time, after the workers are done, so that load
+# cannot turn a slow proof into a false alarm.
 export GOFLAGS=-mod=mod GOPROXY=off GOSUMDB=off GOTOOLCHAIN=local
+JOBS=${SELFTEST_JOBS:-4}
 W=/tmp/govc-selftest
-rm -rf $W; git -C /repo worktree prune
-git -C /repo worktree add -q --detach $W HEAD || exit 2
-trap 'git -C /repo worktree remove --force $W 2>/dev/null; rm -rf /tmp/govc-selftest-out' EXIT
-fail=0
-run() { # name patch props expect(break|harmless)
-  name=$1; patch=$2; props=$3; expect=$4
-  (cd $W && git checkout -q -- . && git clean -fdq)
-  if ! (cd $W && git apply $patch 2>/dev/null); then echo "SKIP $name: patch does not apply to the current tree"; return; fi
-  if ! (cd $W && go build ./... 2>/dev/null); then echo "SKIP $name: does not build"; return; fi
+rm -rf $W $W-*; git -C /repo worktree prune
+trap 'for i in $(seq 0 $JOBS); do git -C /repo worktree remove --force $W-$i 2>/dev/null; done; rm -rf /tmp/govc-selftest-out-* /tmp/govc-selftest-list-* /tmp/govc-selftest-res-*' EXIT
+for i in $(seq 0 $JOBS); do git -C /repo worktree add -q --detach $W-$i HEAD || exit 2; done
+run() { # worktree name patch props expect(break|harmless)
+  wt=$1; name=$2; patch=$3; props=$4; expect=$5
+  (cd $wt && git checkout -q -- . && git clean -fdq)
+  if ! (cd $wt && git apply $patch 2>/dev/null); then echo "SKIP $name: patch does not apply to the current tree"; return; fi
+  if ! (cd $wt && go build ./... 2>/dev/null); then echo "SKIP $name: does not build"; return; fi
   total=0
   for p in $props; do
-    n=$(GOVC_REPO=$W GOVC_OUT=/tmp/govc-selftest-out /verif/bin/govc check $p 2>&1 | grep -c "^VIOLATION")
+    n=$(GOVC_REPO=$wt GOVC_OUT=/tmp/govc-selftest-out-$(basename $wt) /verif/bin/govc check $p 2>&1 | grep -c "^VIOLATION")
     total=$((total+n))
   done
   if [ "$expect" = break ]; then
-    if [ $total -ge 1 ]; then echo "ok   $name: reported ($total obligations) by $props"; else echo "MISS $name: not reported by $props"; fail=1; fi
+    if [ $total -ge 1 ]; then echo "ok   $name: reported ($total obligations) by $props"; else echo "MISS $name: not reported by $props"; fi
   else
-    if [ $total -eq 0 ]; then echo "ok   $name: harmless edit not reported by $props"; else echo "FALSE-ALARM $name: $total obligations reported by $props"; fail=1; fi
+    if [ $total -eq 0 ]; then echo "ok   $name: harmless edit not reported by $props"; else echo "FALSE-ALARM $name: $total obligations reported by $props"; fi
   fi
 }
 sel="$@"
 want() { [ -z "$sel" ] && return 0; for s in $sel; do [ "$s" = "$1" ] && return 0; done; return 1; }
+# work list: name|patch|props
+k=0
 for d in /verif/seeded/*/; do
   id=$(basename $d); want $id || continue
   props=$(python3 -c "import json;print(json.load(open('$d/meta.json')).get('checks_run','$id'))" 2>/dev/null || echo ${id%%-*})
-  run "seeded/$id" $d/patch.diff "$props" break
+  echo "seeded/$id|$d/patch.diff|$props" >> /tmp/govc-selftest-list-$((k % JOBS)); k=$((k+1))
 done
 for f in /verif/selftest/break/*.diff; do
   [ -f "$f" ] || continue
   n=$(basename $f .diff); want $n || continue
   props=$(head -1 $f | sed -n 's/^# props: //p')
-  run "break/$n" $f "$props" break
+  echo "break/$n|$f|$props" >> /tmp/govc-selftest-list-$((k % JOBS)); k=$((k+1))
 done
+for i in $(seq 0 $((JOBS-1))); do
+  [ -f /tmp/govc-selftest-list-$i ] || continue
+  ( while IFS='|' read -r name patch props; do run $W-$i "$name" "$patch" "$props" break; done < /tmp/govc-selftest-list-$i ) > /tmp/govc-selftest-res-$i 2>&1 &
+done
+wait
+cat /tmp/govc-selftest-res-* 2>/dev/null | sort -k2
 for f in /verif/selftest/harmless/*.diff; do
   [ -f "$f" ] || continue
   n=$(basename $f .diff); want $n || continue
   props=$(head -1 $f | sed -n 's/^# props: //p')
-  run "harmless/$n" $f "$props" harmless
-done
-exit $fail
+  run $W-$JOBS "harmless/$n" $f "$props" harmless
+done | tee /tmp/govc-selftest-res-h
+if cat /tmp/govc-selftest-res-* 2>/dev/null | grep -qE "^(MISS|FALSE-ALARM)"; then exit 1; fi
+exit 0
